@@ -1,5 +1,6 @@
 //! `lap` cases: scripts over one Lapper<I, u32> (I = u8 when W = 255, u64 otherwise).
 use crate::sexp::*;
+use crate::util::walk_check;
 use bed_utils::verif_hooks::{Interval, Lapper};
 use num_traits::PrimInt;
 
@@ -30,7 +31,7 @@ fn build<I: PrimInt>(ivs: &Sx, ops: &[Sx]) -> Lapper<I, u32> {
     l
 }
 
-pub fn run_generic<I: PrimInt + std::panic::RefUnwindSafe + std::panic::UnwindSafe>(ivs: &Sx, ops: &Sx) -> Sx {
+pub fn run_generic<I: PrimInt + std::panic::RefUnwindSafe + std::panic::UnwindSafe + serde::Serialize + serde::de::DeserializeOwned>(ivs: &Sx, ops: &Sx) -> Sx {
     let out = std::sync::Mutex::new(Vec::<Sx>::new());
     let r = std::panic::catch_unwind(std::panic::AssertUnwindSafe(|| {
         let mut l: Lapper<I, u32> = Lapper::new(ivs.tagged("ivs").iter().map(iv::<I>).collect());
@@ -45,8 +46,21 @@ pub fn run_generic<I: PrimInt + std::panic::RefUnwindSafe + std::panic::UnwindSa
                     l.set_cov();
                 }
                 "cur0" => cur = 0,
-                "find" => emit(tag("h", l.find(c(&o[1]), c(&o[2])).map(sx_iv).collect())),
-                "seek" => emit(tag("h", l.seek(c(&o[1]), c(&o[2]), &mut cur).map(sx_iv).collect())),
+                // an index that went through its own serde round trip, or a clone of it, is the same index
+                "reload" => l = bincode::deserialize(&bincode::serialize(&l).expect("glue: serialize")).expect("deserialize a serialized index"),
+                "clone" => l = l.clone(),
+                "find" => {
+                    let (qs, qe): (I, I) = (c(&o[1]), c(&o[2]));
+                    if let Some(w) = walk_check(&|| l.find(qs, qe)) { emit(a(format!("ORACLE-FAIL:find-walked-by-{}", w))); }
+                    emit(tag("h", l.find(qs, qe).map(sx_iv).collect()))
+                }
+                "seek" => {
+                    let (qs, qe): (I, I) = (c(&o[1]), c(&o[2]));
+                    // a seek does its cursor work when called; the returned iterator walked any way gives the same hits
+                    let c0 = cur;
+                    if let Some(w) = walk_check(&|| { let mut cc = c0; l.seek(qs, qe, &mut cc).collect::<Vec<_>>().into_iter() }) { emit(a(format!("ORACLE-FAIL:seek-repeatable-{}", w))); }
+                    emit(tag("h", l.seek(qs, qe, &mut cur).map(sx_iv).collect()))
+                }
                 "count" => emit(a(l.count(c(&o[1]), c(&o[2])))),
                 "cov" => emit(a(l.cov().to_u64().unwrap())),
                 "len" => emit(a(l.len())),
@@ -60,12 +74,13 @@ pub fn run_generic<I: PrimInt + std::panic::RefUnwindSafe + std::panic::UnwindSa
                     let v: Vec<Sx> = l.iter().map(sx_iv).collect();
                     let v2: Vec<Sx> = (&l).into_iter().map(sx_iv).collect();
                     if v != v2 || v.len() != l.len() { emit(a("ORACLE-FAIL:iter/into_iter/len-disagree")); }
+                    if let Some(w) = walk_check(&|| l.iter()) { emit(a(format!("ORACLE-FAIL:iter-walked-by-{}", w))); }
                     emit(tag("ivs", v))
                 }
-                "depth" => emit(tag(
+                "depth" => { if let Some(w) = walk_check(&|| l.depth().map(|d| (d.start, d.stop, d.val))) { emit(a(format!("ORACLE-FAIL:depth-walked-by-{}", w))); } emit(tag(
                     "d",
                     l.depth().map(|d| Sx::L(vec![a(d.start.to_u64().unwrap()), a(d.stop.to_u64().unwrap()), a(d.val.to_u64().unwrap())])).collect(),
-                )),
+                )) }
                 "ui" => {
                     let b: Lapper<I, u32> = build(&o[1], o[2].tagged("ops"));
                     let (u, i) = l.union_and_intersect(&b);
